@@ -104,19 +104,32 @@ Proof.
   apply (group_one_undo c07_rows h s e evs Hc Ha Hp Hall Hwf Hne).
 Qed.
 
-(* If (and only when) the regenerated table says the typed-character,
-   backspace and delete bindings are if_no_repeat, a run of any of them is
-   undone as one group.  The harness reads the flag through run_C07 (2). *)
+(* The regenerated table classifies every typed-character / backspace /
+   delete / multiple-cursor binding as if_no_repeat on a plain handler
+   (recomputed over the whole table whenever it changes) ... *)
+Lemma live_group_flag : tbl_group_ok c07_rows = true.
+Proof. vm_compute. reflexivity. Qed.
+
+(* ... and every binding whose handler calls Buffer.undo never snapshots. *)
+Lemma live_undo_flag : tbl_undo_ok c07_rows = true.
+Proof. vm_compute. reflexivity. Qed.
+
+Theorem live_undo_never_snapshots h :
+  r_act (lookup c07_rows h) = 1 -> r_cls (lookup c07_rows h) = 0.
+Proof. apply undo_ok_row. exact live_undo_flag. Qed.
+
+(* A run of typed characters, of backspaces or of deletes (any grouping
+   binding of the real table) is undone as one group. *)
 Theorem live_typed_group h s e evs :
-  tbl_group_ok c07_rows = true ->
   is_group_role (lookup c07_rows h) = true ->
   kprev s <> Some h -> Forall (is_key_of h) (e :: evs) -> wf (kbuf s) ->
   let s' := krun c07_rows s (e :: evs) in
   utext (kbuf s') <> utext (kbuf s) ->
-  here (undo (kbuf s')) = here (kbuf s).
+  here (undo (kbuf s')) = here (kbuf s) /\
+  rstack (undo (kbuf s')) = [here (kbuf s')].
 Proof.
-  intros Hflag Hr Hp Hall Hwf. cbn zeta. intros Hne.
-  destruct (group_ok_row c07_rows h Hflag Hr) as [Hc Ha].
+  intros Hr Hp Hall Hwf. cbn zeta. intros Hne.
+  destruct (group_ok_row c07_rows h live_group_flag Hr) as [Hc Ha].
   apply (group_one_undo c07_rows h s e evs Hc Ha Hp Hall Hwf Hne).
 Qed.
 
